@@ -57,6 +57,7 @@ const (
 	HOpenOpen           = iota // open (fail?) -> open again
 	HOpenCloseCloseOpen        // open -> close -> close -> open -> close
 	HOpenBolt                  // open (fail?) -> plain bbolt.Open with timeout
+	HCloseThrice               // open -> close x3 (each under the watchdog) -> open -> close
 	nHist
 )
 
@@ -343,6 +344,28 @@ func oracle(c *Case) error {
 				}
 			}
 		}
+	case HCloseThrice:
+		if idx != nil {
+			for n := 1; n <= 3; n++ {
+				cerr, hung, _ := fix.Watchdog(20*time.Second, []string{"updog.(*Index).Close"}, func() error { return idx.Close() })
+				if hung != "" {
+					return fmt.Errorf("Close call #%d on the same index does not return:\n%s", n, hung)
+				}
+				if fix.IsPanic(cerr) {
+					return fmt.Errorf("Close call #%d: %v", n, cerr)
+				}
+			}
+			if err := released(path); err != nil {
+				return fmt.Errorf("after three Close calls: %v", err)
+			}
+			idx2, err := step("open after three Close calls")
+			if err != nil {
+				return err
+			}
+			if idx2 != nil {
+				closeIt("close 2", idx2)
+			}
+		}
 	case HOpenBolt:
 		if idx != nil {
 			closeIt("close", idx)
@@ -393,6 +416,9 @@ func drawCase(t *rapid.T) *Case {
 }
 
 func replay(cf *evid.CaseFile) error {
+	if cf.Sub == "sweep" {
+		return fmt.Errorf("a failure of the single-damage sweep is reproduced by ./check C15 quick (position is in the summary)")
+	}
 	var c Case
 	if err := evid.Decode(cf.Gob, &c); err != nil {
 		return fmt.Errorf("undecodable case: %v", err)
@@ -417,9 +443,84 @@ func systematic(t *testing.T) {
 	evid.Exhaustive("every single damage kind x 4 option sets x 3 history shapes on a fixed small index")
 }
 
+// singleDamageSweep: an index with more than 2000 bitmaps; exactly ONE bitmap
+// (at position p in key order) is replaced by garbage; preloading must fail
+// for every p.  quick: positions around the multiples of 1000 plus a stride;
+// thorough: every position.
+func singleDamageSweep(t *testing.T, all bool) {
+	spec := gen.DataSpec{Recipe: &gen.Recipe{N: 2200, Cols: []gen.ColSpec{{Name: "u", Prefix: "r", Kind: gen.KUnique}, {Name: "a", Kind: gen.KMod, K: 7}}}}
+	dir := fix.CaseDir()
+	defer os.RemoveAll(dir)
+	base, _, err := fix.Build(dir, spec.Rows(), fix.WMemFile)
+	if err != nil {
+		panic("INFRA: " + err.Error())
+	}
+	var keys [][]byte
+	db, err := bbolt.Open(base, 0o644, &bbolt.Options{ReadOnly: true})
+	if err != nil {
+		panic("INFRA: " + err.Error())
+	}
+	db.View(func(tx *bbolt.Tx) error {
+		cur := tx.Bucket([]byte("data")).Cursor()
+		for k, _ := cur.Seek([]byte("V")); k != nil && k[0] == 'V'; k, _ = cur.Next() {
+			keys = append(keys, append([]byte(nil), k...))
+		}
+		return nil
+	})
+	db.Close()
+	shard, nshards := evid.Shard()
+	tested := 0
+	for p := range keys {
+		near := p%1000 <= 2 || p%1000 >= 998 || p%256 <= 1 || p == len(keys)-1
+		if !all && !near && p%97 != 0 {
+			continue
+		}
+		if p%nshards != shard {
+			continue
+		}
+		path, err := fix.CopyFile(dir, base)
+		if err != nil {
+			panic("INFRA: " + err.Error())
+		}
+		wdb, err := bbolt.Open(path, 0o644, nil)
+		if err != nil {
+			panic("INFRA: " + err.Error())
+		}
+		wdb.Update(func(tx *bbolt.Tx) error {
+			return tx.Bucket([]byte("data")).Put(keys[p], []byte{0xde, 0xad, 0xbe, 0xef, 1, 2, 3, 4})
+		})
+		wdb.Close()
+		tested++
+		for _, oc := range []fix.OpenCfg{{Preload: true, CacheCap: -1}, {Preload: true, CacheCap: 1 << 20}} {
+			idx, oerr := tryOpen(path, oc)
+			evid.Case(true, fmt.Sprintf("single garbage bitmap at position %d of %d, open %s", p, len(keys), oc), "single-damage-sweep")
+			if oerr == nil {
+				fix.Safe(idx.Close)
+				c := &Case{Data: spec, Damages: []Damage{{Kind: DGarbageBitmap, Arg: p}}, Open: oc, Hist: HOpenBolt}
+				fix.Fail(t, prop, "sweep", c, fmt.Sprintf("%s; the ONLY damaged bitmap is number %d of %d in key order", c.Summary(), p, len(keys)),
+					fmt.Errorf("OpenIndex(%s) succeeded although bitmap %d of %d is undecodable and data is preloaded", oc, p, len(keys)))
+			}
+			if fix.IsPanic(oerr) {
+				c := &Case{Data: spec, Damages: []Damage{{Kind: DGarbageBitmap, Arg: p}}, Open: oc, Hist: HOpenBolt}
+				fix.Fail(t, prop, "sweep", c, c.Summary(), oerr)
+			}
+			if rerr := released(path); rerr != nil {
+				c := &Case{Data: spec, Damages: []Damage{{Kind: DGarbageBitmap, Arg: p}}, Open: oc, Hist: HOpenBolt}
+				fix.Fail(t, prop, "sweep", c, c.Summary(), rerr)
+			}
+		}
+		os.Remove(path)
+	}
+	if all {
+		evid.Exhaustive(fmt.Sprintf("a single garbage bitmap at every one of the %d positions of a 2200-row index, opened with preload", len(keys)))
+	}
+	evid.Note("single_damage_positions_tested", int64(tested))
+}
+
 func TestQuick(t *testing.T) {
 	fix.Pinned(t, prop, replay)
 	systematic(t)
+	singleDamageSweep(t, false)
 	fix.Check(t, "open", 600, func(rt *rapid.T) { run(rt, drawCase(rt)) })
 }
 
@@ -428,6 +529,7 @@ func TestThorough(t *testing.T) {
 		fix.Pinned(t, prop, replay)
 		systematic(t)
 	}
+	singleDamageSweep(t, true)
 	fix.Check(t, "open", 30000, func(rt *rapid.T) { run(rt, drawCase(rt)) })
 }
 
